@@ -159,12 +159,12 @@ ADD_ITEM_SPEC = r'''
 
 ADD_LOOP = r'''
                 invariant
-                    __i <= right@.len(), right@ == right0.data@[key], right0.data@.contains_key(key),
+                    __i <= §matching§@.len(), §matching§@ == right0.data@[key], right0.data@.contains_key(key),
                     forall|a: Option<OutL>, b: Option<OutR>| make_pair.requires((a, b)),
                     buffer@.len() == old(buffer)@.len() + __i, buffer@.take(old(buffer)@.len() as int) =~= old(buffer)@,
                     forall|i: int| old(buffer)@.len() <= i < buffer@.len() ==> (#[trigger] buffer@[i]).0 == key,
-                    forall|i: int| 0 <= i < __i ==> make_pair.ensures((Some(item), Some(right@[i])), (#[trigger] buffer@[old(buffer)@.len() + i]).1),
-                decreases right@.len() - __i,
+                    forall|i: int| 0 <= i < __i ==> make_pair.ensures((Some(item), Some(§matching§@[i])), (#[trigger] buffer@[old(buffer)@.len() + i]).1),
+                decreases §matching§@.len() - __i,
 '''
 
 SIDE_ENDED_DEFS = r"""
@@ -598,14 +598,15 @@ def build(x):
     ai = x.method(F, 'JoinLocalHash', 'add_item')
     ai.sub('V-SUBST', r'\(key, item\): \(Key, OutL\),', 'kv: (Key, OutL),', detail='tuple pattern in the parameter list -> named parameter + `let (key, item) = kv;`', must=True)
     ai.insert_at_body_start('\n        let (key, item) = kv;\n        let ghost right0 = *right;')
-    ai.sub('V-ITER', r'for rhs in right \{', 'let mut __i: usize = 0; while __i < right.len() { let rhs = &right[__i]; __i += 1;', detail='`for x in &vec {` -> while loop with index', must=True)
+    ai.bind('matching', r'if let Some\((\w+)\) = right\.data\.get\(&key\)')
+    ai.sub('V-ITER', r'for (\w+) in (%s) \{' % re.escape(ai.names['matching']), r'let mut __i: usize = 0; while __i < \2.len() { let \1 = &\2[__i]; __i += 1;', detail='`for x in &vec {` -> while loop with index', must=True)
     ai.sub('V-SUBST', r'left\.data\.entry\(key\)\.or_default\(\)\.push\(item\);', 'left.data.entry_or_default(key).push(item);', detail='`.entry(k).or_default()` -> entry_or_default(k)', must=True)
     ai.add_spec(ADD_ITEM_SPEC)
     ai.add_loop_spec(1, ADD_LOOP)
     ai.insert_after_loop(1, r'''
             proof {
                 let n0 = old(buffer)@.len() as int; let app = buffer@.skip(n0);
-                assert forall|i: int| 0 <= i < app.len() implies make_pair.ensures((Some(item), Some(right@[i])), #[trigger] seconds(app)[i]) by {
+                assert forall|i: int| 0 <= i < app.len() implies make_pair.ensures((Some(item), Some(§matching§@[i])), #[trigger] seconds(app)[i]) by {
                     assert(app[i] == buffer@[n0 + i]);
                 }
             }''')
@@ -677,8 +678,8 @@ def build(x):
     nx.sub('V-SPEC', r'(return StreamElement::Terminate),', r'\1 },', detail='match arm `=> return X,` braced so that a proof block can precede the return')
     nx.insert_before('return StreamElement::FlushBatch', '{ ' + NEXT_RETURN_HINT)
     nx.sub('V-SPEC', r'(return StreamElement::FlushBatch),', r'\1 },', detail='match arm `=> return X,` braced so that a proof block can precede the return')
-    nx.insert_before('let item = self.buffer.pop_front().unwrap();', 'let ghost midj = self.jv();\n        ')
-    nx.insert_after('let item = self.buffer.pop_front().unwrap();', '''
+    nx.insert_before(re.compile(r'let item(?:\s*:\s*[^=;]+)? = self\.buffer\.pop_front\(\)\.unwrap\(\);'), 'let ghost midj = self.jv();\n        ')
+    nx.insert_after(re.compile(r'let item(?:\s*:\s*[^=;]+)? = self\.buffer\.pop_front\(\)\.unwrap\(\);'), '''
         proof {
             assert(self.buffer@ =~= midj.buf.skip(1));
             assert(self.jv() == (JV { buf: midj.buf.skip(1), ..midj }));
